@@ -26,6 +26,9 @@ type MEntry struct {
 type Model struct {
 	Reg   map[string]*MEntry
 	Order []string
+	// TimeHash: the world's configured ordering is the application-defined "clock time, then entry hash"
+	// (a strict total order that ignores the clock id); otherwise (time, clock id[, hash])
+	TimeHash bool
 }
 
 func NewModel() *Model { return &Model{Reg: map[string]*MEntry{}} }
@@ -137,6 +140,9 @@ func (m *Model) less(a, b *MEntry, byHash bool) bool {
 	if a.Time != b.Time {
 		return a.Time < b.Time
 	}
+	if m.TimeHash {
+		return a.Hash < b.Hash
+	}
 	if a.ClockID != b.ClockID {
 		return a.ClockID < b.ClockID
 	}
@@ -159,13 +165,13 @@ func (m *Model) Linear(set map[string]bool, byHash bool) ([]string, bool) {
 		if a.Time != b.Time {
 			return a.Time < b.Time
 		}
-		if a.ClockID != b.ClockID {
+		if a.ClockID != b.ClockID && !m.TimeHash {
 			return a.ClockID < b.ClockID
 		}
 		return a.Hash < b.Hash
 	})
 	strict := true
-	if !byHash {
+	if !byHash && !m.TimeHash {
 		for i := 1; i < len(xs); i++ {
 			if xs[i].Time == xs[i-1].Time && xs[i].ClockID == xs[i-1].ClockID {
 				strict = false
